@@ -122,9 +122,10 @@ SCHED_NOTE = ('trusted: the yield-point recorder (thread-local buffers, one rela
 
 
 def sched(prop, level_text, required, extra_legs=(), **kw):
+    ncases = dict(quick=4000, thorough=40000 if prop == 'C11' else 120000)
     d = dict(
-        legs=[dict(name='native', bin='sched', shards=16, timeout=dict(quick=500, thorough=3600))] + list(extra_legs)
-        + [asan_leg('sched', 16000), tsan_leg(16000), miri_leg('sched', 160), miri_leg('sched', 96, weakmem=True)],
+        legs=[dict(name='native', bin='sched', shards=16, timeout=dict(quick=500, thorough=3600), args=dict(cases=ncases))] + list(extra_legs)
+        + [asan_leg('sched', 6000 if prop == 'C11' else 16000), tsan_leg(6000 if prop == 'C11' else 16000), miri_leg('sched', 160), miri_leg('sched', 96, weakmem=True)],
         rule=SCHED_RULE,
         assumptions=COMMON_ASSUME + ['unbounded "eventually" is restated as: by quiescence (all client threads joined, loop dispatched until idle), plus a state-based lost-wake predicate (a 200 ms dispatch times out although something is owed)',
                                      'x86-64 host: weak-memory reorderings are visible only to the Miri leg'],
@@ -190,15 +191,15 @@ PROPS = {
                  'results exactly once, executor dropped while wakers are active, queue sizes around 1024, scheduling from callbacks and futures; executor and StreamSource single-threaded histories in the hist engine.',
                  {'send:between-clear-pre-and-post': 1, 'send:after-flag-cleared-while-draining': 1, 'send:while-draining': 1, 'send:loop-inside-the-wait': 1, 'flag-cleared-between-enqueue-and-swap': 1, 'executor-dropped-with-active-wakers': 1, 'batch:above-limit': 1},
                  extra_legs=[HIST_LEG]),
-    'C11': sched('C11', 'sampled schedules: stop()+wakeup() from a controller thread at a planned moment of run(None|5 ms) (returns Ok, at most one iteration begins afterwards, never returns before the request; a hang is decided by state: loop thread parked in epoll_wait on 5 samples after the request returned), '
-                 'wakeup() before the wait (single-threaded), block_on with a future woken from 1..6 threads or pre-empted by stop().',
-                 {'signal:loop-inside-the-wait': 1, 'signal:after-stop-check-before-wait': 1, 'wake:loop-inside-the-wait': 1, 'wake:after-poll-before-wait': 1, 'wake:between-flag-swap-and-poll-end': 1, 'wakeup-before-wait': 1, 'block_on:completed': 1, 'block_on:stopped': 1}),
+    'C11': sched('C11', 'sampled schedules (4k quick / 40k thorough): stop()+wakeup() from a controller thread at a planned moment of run(None|5 ms) (returns Ok, at most one iteration begins afterwards, never returns before the request; a hang is decided by state: loop thread parked in epoll_wait on 5 samples after the request returned), '
+                 'wakeup() before the wait (single-threaded), bare wakeup() calls from a second thread against run(None) with a dawdling per-iteration closure (every returned wakeup must be followed by a wait that ends; verdict needs the loop thread parked in epoll_wait), block_on with a future woken from 1..6 threads or pre-empted by stop() (polls caused by the harness\' own later wakes do not count).',
+                 {'signal:loop-inside-the-wait': 1, 'signal:after-stop-check-before-wait': 1, 'wakeup:no-wait-in-progress': 1, 'wakeup:loop-inside-the-wait': 1, 'wake:loop-inside-the-wait': 1, 'wake:after-poll-before-wait': 1, 'wake:between-flag-swap-and-poll-end': 1, 'wakeup-before-wait': 1, 'block_on:completed': 1, 'block_on:stopped': 1}),
     'C01': hist('C01', "sampled runtime exploration: 24k (quick) / 400k (thorough) generated histories with few slots, immediate slot reuse, stale tokens of every removed source, composites with 1..6 sub-sources (incl. TransientSource children) and all mutations also issued from callbacks; every callback invocation is checked for liveness of its source and for a cause of its own (ping count, head of its channel queue, current timer arming, poll(2) on the sub-source's own fd). Histories, not all of them; <200 reuses per slot.", 'trusted: the harness ledger (a record of what the harness did and what the API returned), the instrumented wrapper source (forwards to the real calloop sources, logs, injects the faults a history asks for), poll(2)//proc/self/fdinfo as ground truth for fd readiness and registrations, the statistics hook; real time only through Instants taken by the harness around calls'),
     'C02': hist('C02', 'sampled runtime exploration: before every dispatch the set of enabled sources with a pending cause is computed from the ledger and from poll(2) (per interest and trigger mode); after an Ok dispatch each of them must have been invoked unless a callback of that dispatch touched it. Up to 24 (quick) / 96 (thorough) sources per history, all interest x mode combinations; batches above the 1024 poller batch size are exercised only through channel/executor queues in the sched engine.', 'trusted: the harness ledger (a record of what the harness did and what the API returned), the instrumented wrapper source (forwards to the real calloop sources, logs, injects the faults a history asks for), poll(2)//proc/self/fdinfo as ground truth for fd readiness and registrations, the statistics hook; real time only through Instants taken by the harness around calls'),
     'C05': hist('C05', "sampled runtime exploration with exact Instant comparisons: every arming (insert, ToInstant/ToDuration, set_deadline+update, re-enable) is a ledger record; clauses never_early, event_is_deadline, order, once, first_dispatch, cancel_final and heap-length residue are checked on 8k (quick) / 120k (thorough) histories with past/now/+1..12ms/far/unrepresentable deadlines, actions from other sources' callbacks in the same dispatch and failing sources.", 'trusted: the harness ledger (a record of what the harness did and what the API returned), the instrumented wrapper source (forwards to the real calloop sources, logs, injects the faults a history asks for), poll(2)//proc/self/fdinfo as ground truth for fd readiness and registrations, the statistics hook; real time only through Instants taken by the harness around calls'),
     'C06': hist('C06', 'sampled runtime exploration of every removal path (outside, self, other, PostAction::Remove, TimeoutAction::Drop, closed ping/channel, ended stream) with immediate re-insertion and later use of every token ever issued; released = into_source_inner succeeds at the end of the dispatch, drop-counting guards on every source, callback, idle and future, slot statistics, loop drop in both orders.', 'trusted: the harness ledger (a record of what the harness did and what the API returned), the instrumented wrapper source (forwards to the real calloop sources, logs, injects the faults a history asks for), poll(2)//proc/self/fdinfo as ground truth for fd readiness and registrations, the statistics hook; real time only through Instants taken by the harness around calls'),
     'C07': hist('C07', "sampled runtime exploration of disable/enable/update from outside, from the source itself and from other callbacks with the victim's event already collected; silence while disabled, token validity, readiness retained across the gap (via the pending-cause monitor) and no registration call on any other source.", 'trusted: the harness ledger (a record of what the harness did and what the API returned), the instrumented wrapper source (forwards to the real calloop sources, logs, injects the faults a history asks for), poll(2)//proc/self/fdinfo as ground truth for fd readiness and registrations, the statistics hook; real time only through Instants taken by the harness around calls'),
-    'C08': hist('C08', 'sampled runtime exploration of callback programs (up to 6 operations per invocation, nesting depth 3, idle callbacks as runners, adapt_io and insert_idle inside callbacks); any panic unwinding out of a dispatch or operation with a location inside calloop is a violation; effects are judged by the other monitors on the following dispatches. The evidence lists which operation kinds ran inside callbacks.', 'trusted: the harness ledger (a record of what the harness did and what the API returned), the instrumented wrapper source (forwards to the real calloop sources, logs, injects the faults a history asks for), poll(2)//proc/self/fdinfo as ground truth for fd readiness and registrations, the statistics hook; real time only through Instants taken by the harness around calls'),
+    'C08': hist('C08', 'sampled runtime exploration of callback programs (up to 6 operations per invocation, nesting depth 3, idle callbacks as runners, adapt_io and insert_idle inside callbacks); any panic unwinding out of a dispatch or operation with a location inside calloop is a violation; clause effect_as_outside fires when the accounting of deferred in-callback operations (registration calls owed/made, pending action) goes wrong; other effects are judged by the other monitors on the following dispatches. The evidence lists every (running source kind x operation) pair that ran inside callbacks (events_observed in:<kind>:<op>).', 'trusted: the harness ledger (a record of what the harness did and what the API returned), the instrumented wrapper source (forwards to the real calloop sources, logs, injects the faults a history asks for), poll(2)//proc/self/fdinfo as ground truth for fd readiness and registrations, the statistics hook; real time only through Instants taken by the harness around calls'),
     'C09': hist('C09', 'sampled runtime exploration with registration-call accounting: every register/reregister/unregister call the loop makes is attributed to an explicit operation or to the post-action window of the source whose process_events just ended; anything else is a foreign action; the window must contain exactly the calls the effective action asks for; pending action must be clear outside dispatches; all 16 BitOr pairs.', 'trusted: the harness ledger (a record of what the harness did and what the API returned), the instrumented wrapper source (forwards to the real calloop sources, logs, injects the faults a history asks for), poll(2)//proc/self/fdinfo as ground truth for fd readiness and registrations, the statistics hook; real time only through Instants taken by the harness around calls'),
     'C13': hist('C13', 'sampled runtime exploration of insert_idle/cancel/drop-handle from outside, from source callbacks and from idle callbacks, with dispatches that succeed or fail: once, after sources, insertion order, first Ok dispatch, cancelled never, idle-from-idle next dispatch, no idle on Err.', 'trusted: the harness ledger (a record of what the harness did and what the API returned), the instrumented wrapper source (forwards to the real calloop sources, logs, injects the faults a history asks for), poll(2)//proc/self/fdinfo as ground truth for fd readiness and registrations, the statistics hook; real time only through Instants taken by the harness around calls'),
     'C14': hist('C14', 'sampled runtime exploration with 1..n lifecycle sources (multi sub-token composites included), synthetic events, failing registrations: per dispatch exactly one before_sleep before the wait and one before_handle_events after it and before any process_events (order taken from yield points WaitPre/WaitPost), iterator contents against the processed events, lifecycle-set size at quiescent points.', 'trusted: the harness ledger (a record of what the harness did and what the API returned), the instrumented wrapper source (forwards to the real calloop sources, logs, injects the faults a history asks for), poll(2)//proc/self/fdinfo as ground truth for fd readiness and registrations, the statistics hook; real time only through Instants taken by the harness around calls'),
